@@ -285,3 +285,35 @@ Proof.
   intros Hok2 Hcw Hrtt Hfs Hr. destruct (Bexp_ok lc rtt0 Hok2 Hrtt Hfs) as [B0 B1].
   exact (loop_expiries_bounded lc cw ss rtt0 orc (Bexp lc rtt0) Hok2 Hcw Hrtt Hfs B0 B1 st Hr).
 Qed.
+
+(* ---- non-vacuity ---- *)
+(* 4 segments of 1 byte, delay 1, data transmissions 0 and 2 and ACK 1 dropped, rtt_estimate 1, window 2:
+   the hypotheses hold, the bound is 40047 steps, and the run (3 expiries, 7 transmissions) completes *)
+Definition lc_live : lcfg := mklcfg repaired (mkcfg 1 4 Reno) (1 # 1) [0; 2]%nat [1]%nat (1000000 # 1).
+Example live_example :
+  lc_ok2 lc_live /\ (zq (mss (lc_cfg lc_live)) <= 2 # 1)%Q /\ fsize (lc_cfg lc_live) <> 0 /\
+  Bexp lc_live 1 = 360 /\ 3 + Gnew lc_live * 4 + Cexp lc_live * Bexp lc_live 1 = 40047 /\
+  exists st, lrun (Z.to_nat 40048) lc_live (linit (2 # 1) (65535 # 1) 1 []) = LQuiescent st /\
+             last_ack (l_snd st) = 4 /\ nse (l_sink st) = 4 /\ nexp st = 3%nat /\ l_n1 st = 7%nat.
+Proof.
+  split; [|split; [|split; [|split; [|split]]]].
+  - constructor; [constructor; cbn; [reflexivity|lia|discriminate]|]. exists 4. cbn. lia.
+  - cbn. discriminate.
+  - cbn. discriminate.
+  - vm_compute. reflexivity.
+  - vm_compute. reflexivity.
+  - eexists. split; [vm_compute; reflexivity|]. repeat split; reflexivity.
+Qed.
+
+(* delay 0 (every RTT sample is 0, rtt_estimate decays by 7/8 per new ACK), CUBIC, three data and two ACK drops *)
+Definition lc_live0 : lcfg := mklcfg repaired (mkcfg 2 6 Cubic) (0 # 1) [1; 2; 3]%nat [0; 1]%nat (1000000 # 1).
+Example live_example_delay0 :
+  lc_ok2 lc_live0 /\ Bexp lc_live0 (1 # 4) = 252 /\
+  exists st, lrun (Z.to_nat 38710) lc_live0 (linit (4 # 1) (65535 # 1) (1 # 4) []) = LQuiescent st /\
+             last_ack (l_snd st) = 6 /\ (0 < rto (l_snd st))%Q.
+Proof.
+  split; [|split].
+  - constructor; [constructor; cbn; [reflexivity|lia|discriminate]|]. exists 3. cbn. lia.
+  - vm_compute. reflexivity.
+  - eexists. split; [vm_compute; reflexivity|]. split; [reflexivity|]. vm_compute. reflexivity.
+Qed.
